@@ -48,6 +48,11 @@ func (m c16Model) clone() c16Model {
 // replDefine executes a definition the way Interpreter.Loop does: on error
 // the interactive buffer is put back.
 func replDefine(it *interpreter.Interpreter, text string) error {
+	if c16Direct {
+		// a program that embeds the interpreter calls Define itself; a rejected
+		// definition has to leave the buffer as it was without the loop's help
+		return it.Define(text)
+	}
 	saved := it.SimBuffer()
 	if err := it.Define(text); err != nil {
 		it.SimSetBuffer(saved)
@@ -55,6 +60,10 @@ func replDefine(it *interpreter.Interpreter, text string) error {
 	}
 	return nil
 }
+
+// c16Direct: definitions go to Interpreter.Define directly instead of the way
+// Interpreter.Loop issues them (drawn per run).
+var c16Direct bool
 
 func c16Exec(it *interpreter.Interpreter, c c16Cmd) (err error, panicMsg string) {
 	panicked, msg := Guard(func() {
@@ -152,6 +161,7 @@ func runC16(r *simrt.Run, tier Tier) Outcome {
 	}
 	defer os.RemoveAll(root)
 	c16Root = root
+	c16Direct = r.Bool("c16.direct-define")
 	// program files (content fixed per run)
 	files := map[string]string{}
 	for _, x := range []string{"a", "b", "c"} {
@@ -192,6 +202,8 @@ func runC16(r *simrt.Run, tier Tier) Outcome {
 		"i0(/k1).", "i0(/k2).", "i1(Y) :- fa(Y).", "i1(Y) :- i0(Y).", "i2(Y) :- i0(Y), !gb(Y).", "i3(Y) :- ga(Y), gb(Y).",
 		"i4(/k1)@[2024-01-01, 2024-01-03].", "Decl d0(A).", "d0(/k3).",
 		"n0(0).", "n0(2).",
+		// an explicit declaration for a predicate that a loaded file defines without one
+		"Decl fa(A).", "Decl gb(A) bound [/name].", "Decl fa(A). i3(Y) :- nope(Y).", "Decl fc(A). fc(/k1, /k2).",
 		// rejected at evaluation time when n0(0) is live (division by zero)
 		"dz(X) :- n0(Y), X = fn:div(6, Y).",
 		// rejected ones
